@@ -662,11 +662,11 @@ type SortableLess struct {
 	err   error
 }
 
-func (s SortableLess) Len() int {
+func (s *SortableLess) Len() int {
 	return len(s.items)
 }
 
-func (s SortableLess) Less(i, j int) bool {
+func (s *SortableLess) Less(i, j int) bool {
 	s.st.Push(s.items[i])
 	s.st.Push(s.items[j])
 	value, err := s.less.Func(s.st.CreateFrame(2), nil)
@@ -685,7 +685,7 @@ func (s SortableLess) Less(i, j int) bool {
 	}
 }
 
-func (s SortableLess) Swap(i, j int) {
+func (s *SortableLess) Swap(i, j int) {
 	s.items[i], s.items[j] = s.items[j], s.items[i]
 }
 
@@ -699,7 +699,7 @@ func (l *List) OrderLess(st funcGen.Stack[Value]) (*List, error) {
 		return nil, err
 	}
 	s := SortableLess{items: items, st: st, less: f}
-	sort.Sort(s)
+	sort.Sort(&s)
 	return NewList(items...), s.err
 }
 
